@@ -21,7 +21,7 @@ struct Case {
 fn cases(tier: &str) -> Vec<Case> {
     let maxlen = if tier == "thorough" { 4 } else { 3 };
     let mut out = vec![];
-    for name in ["X", "u32"] {
+    for name in ["X", "u32", "void"] {
         for dmask in 0..8u32 {
             for local in [false, true] {
                 for len in 0..=maxlen {
@@ -81,6 +81,9 @@ fn model(c: &Case) -> Option<(&'static str, String, u64)> {
     if c.name == "u32" {
         return Some(("builtin", "u32".to_string(), 4));
     }
+    if c.name == "void" {
+        return Some(("builtin", "::std::ffi::c_void".to_string(), 0));
+    }
     // 3. same module
     if c.local {
         return Some(("same_module", format!("crate::o::{}", c.name), LOCAL_SIZE));
@@ -102,7 +105,7 @@ pub fn all_inputs(tier: &str) -> Vec<pipe::Input> {
 pub fn run(tier: &str, only: Option<&Value>) -> i32 {
     let mut rep = Report::new("C11", tier);
     let all = cases(tier);
-    rep.rule = "E1: modules a, b, n::c each define (or not) a type of the observed short name with sizes 4/8/16, the observer module with or without its own definition (size 2), every ordered use list of length <= 3 (4 thorough) over {use a, use b, use n::c, use a::N, use b::N, use n::c::N}, for the names X and u32 (a user type named like a built-in); oracle: precedence model -> expected crate path of the field / parameter / return type (syn) and the size pyxis used for the referring type; distinct = distinct (winning rule, number of candidates, name, verdict)".into();
+    rep.rule = "E1: modules a, b, n::c each define (or not) a type of the observed short name with sizes 4/8/16, the observer module with or without its own definition (size 2), every ordered use list of length <= 3 (4 thorough) over {use a, use b, use n::c, use a::N, use b::N, use n::c::N}, for the names X, u32 and void (user types named like a built-in; `void` is the one built-in that is emitted under another path); oracle: precedence model -> expected crate path of the field / parameter / return type (syn) and the size pyxis used for the referring type; distinct = distinct (winning rule, number of candidates, name, verdict)".into();
     rep.assumptions = vec!["that the resolved size equals the compiled size is C02's claim; here the resolved size identifies which definition was used for layout".into()];
     let only_i = only.map(|l| (l["index"].as_u64().unwrap_or(0) as usize, l["ps"].as_u64().unwrap_or(8) as usize));
     for ps in [4usize, 8] {
@@ -136,7 +139,7 @@ pub fn run(tier: &str, only: Option<&Value>) -> i32 {
                             let osize = b.items.get("o::O").map(|i| i.size as u64);
                             if f.as_deref() != Some(path.as_str()) {
                                 Some((format!("field_binds_elsewhere:{rule}"), format!("expected `{path}`, emitted {f:?}")))
-                            } else if pty.as_deref() != Some(&format!("*const {path}")) || rty.as_deref() != Some(&format!("*mut {path}")) {
+                            } else if pty.as_deref().map(|t| t.replace(' ', "")) != Some(format!("*const{path}")) || rty.as_deref().map(|t| t.replace(' ', "")) != Some(format!("*mut{path}")) {
                                 Some((format!("signature_binds_elsewhere:{rule}"), format!("expected `*const {path}` / `*mut {path}`, emitted {pty:?} / {rty:?}")))
                             } else if osize != Some(*size) {
                                 Some((format!("layout_uses_other_definition:{rule}"), format!("expected size {size}, resolved {osize:?}")))
@@ -155,7 +158,7 @@ pub fn run(tier: &str, only: Option<&Value>) -> i32 {
             rep.traces += 1;
             rep.evaluations += 1;
             rep.transitions += c.uses.len() as u64 + 1;
-            let candidates = c.defined.iter().filter(|d| **d).count() + c.local as usize + (c.name == "u32") as usize;
+            let candidates = c.defined.iter().filter(|d| **d).count() + c.local as usize + (c.name == "u32" || c.name == "void") as usize;
             rep.count(&format!("rule_{}", rule.unwrap_or("none")), 1);
             if candidates >= 2 {
                 rep.count("cases_with_two_or_more_candidates", 1);
